@@ -479,7 +479,12 @@ def summarize(ctx, events, crashes, sigs, spec, extra_cov=None, extra_violations
         else:
             violations.append(v)
 
+    harness_panics = [v for v in violations if v.get("kind") == "harness-panic"]
+    violations = [v for v in violations if v.get("kind") != "harness-panic"]
     out_lines = []
+    for hp in harness_panics[:3]:
+        out_lines.append("ERROR %s: the harness itself panicked (no verdict for this case): gen=%s idx=%s %s" % (
+            prop, hp.get("gen"), hp.get("idx"), str(hp.get("detail", ""))[:400].replace("\n", " | ")))
     for kf, lst in sorted(kf_seen.items()):
         out_lines.append("KNOWN-FINDING: property=%s %s %s (%d case(s) in this run, e.g. %s)" % (
             prop, kf, known[kf].get("what", ""), len(lst), (lst[0].get("gen") or "") + " " + str(lst[0].get("detail", ""))[:160].replace("\n", " ")))
@@ -547,6 +552,8 @@ def summarize(ctx, events, crashes, sigs, spec, extra_cov=None, extra_violations
         log(l)
     if violations:
         rc = 1
+    elif harness_panics:
+        rc = 3
     elif err:
         log("ERROR %s: %s" % (prop, err))
         rc = 3
